@@ -651,3 +651,61 @@ def rule_F3c(ctx, records=None):
         else:
             ctx.holds("F3c", key, f.where(), "every non-failing path that changes a persisted field also sets `marked`")
     ctx.floor("F3c", 4 * len(fields), n, "(functions changing persisted Vgroup/Vdata fields)")
+
+
+# ---------------------------------------------------------------------------------------
+# UNROLL2: a loop that consumes two elements per iteration needs an even number of them
+
+def rule_unrolled_pairs(ctx):
+    """UNROLL2 (C12): a `for (; i < n; i++, p++)` loop whose body advances `i` and `p` once more handles two elements per
+    iteration; it stays inside the array only if the number of remaining elements is even.  The statement before the loop must
+    therefore be `if (n % 2 == 1) { ...; i++; p++; }` with the increments executed unconditionally inside that block (the odd
+    element is consumed whether or not it matches)."""
+    from .codec import ast_walk
+    prog = ctx.prog
+    n = 0
+    for f in prog.lib_funcs():
+        blocks = []
+
+        def vis(nn, st):
+            if nn[0] == "block":
+                blocks.append(nn)
+            return True
+        ast_walk(f.raw.get("ast"), vis)
+        for b in blocks:
+            kids = b[1]
+            for i, k in enumerate(kids):
+                if k[0] != "for" or k[2] is None:
+                    continue
+                c = strip(k[2])
+                if not (kind(c) == "bin" and c[1] == "<" and kind(strip(c[2])) == "var"):
+                    continue
+                iv = strip(c[2])[1]
+                bound = render(c[3])
+                # extra increments of the loop variable at the top level of the body
+                body = k[4]
+                stmts = body[1] if body[0] == "block" else [body]
+                extra = [s for s in stmts if s[0] == "s" and kind(strip(s[1])) == "incdec" and kind(strip(strip(s[1])[3])) == "var" and strip(strip(s[1])[3])[1] == iv]
+                if not extra:
+                    continue
+                n += 1
+                key = "UNROLL2:%s:%s" % (f.name, iv)
+                prev = kids[i - 1] if i > 0 else None
+                ok = False
+                why = "no parity adjustment `if (%s %% 2 == 1) { ...; %s++; }` directly before the loop" % (bound, iv)
+                if prev is not None and prev[0] == "if":
+                    pc = strip(prev[1])
+                    mentions_mod = any(x[0] == "bin" and x[1] == "%" and is_int(x[3]) and int_val(x[3]) == 2 for x in walk(pc, True))
+                    then = prev[2]
+                    tst = then[1] if then[0] == "block" else [then]
+                    uncond = any(s[0] == "s" and kind(strip(s[1])) == "incdec" and kind(strip(strip(s[1])[3])) == "var" and strip(strip(s[1])[3])[1] == iv for s in tst)
+                    if mentions_mod and uncond:
+                        ok = True
+                    elif mentions_mod:
+                        why = "the parity adjustment before the loop increments `%s` only conditionally: when the odd element does not match, the pairwise loop runs one element past the end" % iv
+                if ok:
+                    ctx.holds("UNROLL2", key, f.where(), "two elements per iteration; the odd element is consumed unconditionally before the loop", nontrivial=True)
+                else:
+                    ctx.violated("UNROLL2", key, f.where(), why)
+    ctx.floor("UNROLL2", 1, n, "(loops consuming two elements per iteration)")
+    return n
